@@ -20,7 +20,7 @@ IE_CONDITIONAL_PATTERN = re.compile('[<][!][-][-][ \t\r\n]*[\[][ \t\r\n]*if.*-->
 END_HTML = re.compile('.*</[ \t\r\n]*[hH][tT][mM][lL][ \t\r\n]*>.*', re.DOTALL)
 START_HTML = re.compile('.*<[ \t\r\n]*[hH][tT][mM][lL][ \t\r\n]*>.*', re.DOTALL)
 
-DOCTYPE_MATCH = re.compile('[\n]*[ \t]*(?P<tag><[!][ \t]*[dD][oO][cC][tT][yY][pP][eE][^>]*[>])')
+DOCTYPE_MATCH = re.compile('[\n]*[ \t]*(?P<tag><[!][dD][oO][cC][tT][yY][pP][eE][^>]*[>])')
 
 WORDS_ONLY_RE = re.compile('[ ][ ]+')
 
